@@ -436,6 +436,9 @@ func c15Check(c c15Case) (string, []Violation, int) {
 		return "base-failed", []Violation{{Clause: "valid-config-rejected", Key: b.name, Detail: fmt.Sprintf("base configuration: err=%v panic=%v (%s)", err, pn, confString(b.conf()))}}, 1
 	}
 	baseDump := dumpLive()
+	for _, f := range checkDeclaredDefaults(b.conf()) {
+		v = append(v, Violation{Clause: "declared-default", Key: b.name, Detail: fmt.Sprintf("%s (%s)", f, confString(b.conf()))})
+	}
 	safeCall(log.Destroy)
 	if len(c.Devs) == 0 {
 		return dumpString(baseDump), nil, 1
@@ -471,6 +474,9 @@ func c15Check(c c15Case) (string, []Violation, int) {
 	if err == nil && !mustFail {
 		got := dumpLive()
 		obs = dumpString(got)
+		for _, f := range checkDeclaredDefaults(m) {
+			fail("declared-default", fmt.Sprintf("%s (%s)", f, confString(m)))
+		}
 		ign := ""
 		for p, want := range expect {
 			ign = p
@@ -651,8 +657,13 @@ func init() {
 			err, pn := safeRefresh(m)
 			if err != nil || pn != nil {
 				v = append(v, Violation{Clause: "type-not-instantiable", Key: key, Detail: fmt.Sprintf("minimal configuration %s: err=%v panic=%v", confString(m), err, pn)})
-			} else if pn := safeCall(func() { c01Probe() }); pn != nil {
-				v = append(v, Violation{Clause: "accepted-config-unusable", Key: key, Detail: fmt.Sprintf("logging panicked: %v", pn)})
+			} else {
+				for _, f := range checkDeclaredDefaults(m) {
+					v = append(v, Violation{Clause: "declared-default", Key: key, Detail: fmt.Sprintf("%s (%s)", f, confString(m))})
+				}
+				if pn := safeCall(func() { c01Probe() }); pn != nil {
+					v = append(v, Violation{Clause: "accepted-config-unusable", Key: key, Detail: fmt.Sprintf("logging panicked: %v", pn)})
+				}
 			}
 			if pn := safeCall(log.Destroy); pn != nil {
 				v = append(v, Violation{Clause: "destroy-panicked", Key: key, Detail: fmt.Sprint(pn)})
